@@ -75,7 +75,7 @@ def random_cfg(rng, throws, maxk=4, pmax=3, p=None):
     return cfg(n, lim, p, k, filt, thr, raw=raw, api=(1 if rng.random() < 0.1 else 0), ops=ops), p
 
 
-def run_programs(ctx, exe, progs, n, seed, what, label, fix=1, maxsteps=30000, timeout=900, sanitized=False):
+def run_programs(ctx, exe, progs, n, seed, what, label, fix=1, maxsteps=30000, timeout=900, sanitized=False, pct=None):
     """runs every program under n schedules (restarting the driver after an execution that cannot be unwound),
     validates all traces in one TLC run.  Returns (trace path, totals)."""
     tag = re.sub(r'\W+', '_', label)
@@ -88,7 +88,7 @@ def run_programs(ctx, exe, progs, n, seed, what, label, fix=1, maxsteps=30000, t
     while start < total and restarts < 12:
         tr = os.path.join(ctx.work, '%s_%d.ndjson' % (tag, len(parts)))
         args = ['--out', tr, '--progs', '@'.join(progs), '--random', n, '--seed', seed, '--fix', fix,
-                '--from', start, '--maxsteps', maxsteps]
+                '--from', start, '--maxsteps', maxsteps] + ([] if pct is None else ['--pct', pct])
         t, out = ctx.driver(exe, args, what, label=label, allow_incomplete=True, timeout=timeout)
         parts.append(tr)
         if not t:
@@ -109,7 +109,8 @@ def run_programs(ctx, exe, progs, n, seed, what, label, fix=1, maxsteps=30000, t
         e = int(m.group(1))
         tr2 = os.path.join(ctx.work, '%s_rerun%d.ndjson' % (tag, e))
         t2, out2 = ctx.driver(exe, ['--out', tr2, '--progs', '@'.join(progs), '--random', n, '--seed', seed, '--fix', fix,
-                                   '--from', e, '--count', 1, '--maxsteps', maxsteps], what, label=label + ' rerun',
+                                   '--from', e, '--count', 1, '--maxsteps', maxsteps] + ([] if pct is None else ['--pct', pct]),
+                              what, label=label + ' rerun',
                               allow_incomplete=True, timeout=timeout)
         if 'INCOMPLETE' in out2:
             path = ctx.save_replay('%s-stalled.txt' % ctx.prop,
